@@ -323,7 +323,7 @@ def q_name(v):
         if e[0] == 'a':
             evs.append(f'a({g_name(e[1])})x{e[2]}d{e[3]}')
         elif e[0] == 'w':
-            evs.append(f'w{e[1]}x{e[2]}d{e[3]}')
+            evs.append(f"w{e[1]}{'!' if e[4] else ''}x{e[2]}d{e[3]}")
         else:
             evs.append(f'p{e[1]}')
     return f"q{v[1]}:{v[2]}{{{';'.join(evs)}}}"
@@ -367,8 +367,8 @@ def eval_queue(case, v):
             if e[0] == 'a':
                 src, _, _ = eval_gen(case, e[1])
                 q.append(src, e[2], delays=e[3] / FS)
-            elif e[0] == 'w':
-                q.append(w.arrays[e[1]], e[2], delays=e[3] / FS)
+            elif e[0] == 'w':     # e[4]: the caller had overwritten its array before appending it
+                q.append(np.full_like(w.arrays[e[1]], POISON) if e[4] else w.arrays[e[1]], e[2], delays=e[3] / FS)
             else:
                 out = q.pop_buffer(e[1])
         except Exception as ex:  # noqa
@@ -393,6 +393,7 @@ def run_history(case):
     lin = []            # per object: ('g', spec, chunks) | ('q', kind, param, events)
     want = []           # per op: None | 'bad' | lineage value at the observation
     nspec, narr = len(case.get('specs', [])), len(case.get('arrays', []))
+    written = set()     # parameter arrays the caller has overwritten so far
 
     def obj(i, kind=None):
         if not (isinstance(i, int) and 0 <= i < len(lin)) or (kind and lin[i][0] != kind):
@@ -438,12 +439,17 @@ def run_history(case):
                 nat(op[2], op[3], op[4])
                 if op[2] >= narr:
                     raise IndexError
-                lin[op[1]] = q[:3] + (q[3] + (('w', op[2], op[3], op[4]),),)
+                lin[op[1]] = q[:3] + (q[3] + (('w', op[2], op[3], op[4], op[2] in written),),)
             elif o == 'pop':
                 q = obj(op[1], 'q')
                 nat(op[2])
                 lin[op[1]] = q[:3] + (q[3] + (('p', op[2]),),)
                 wv = lin[op[1]]
+            elif o == 'wwrite':
+                nat(op[1])
+                if op[1] >= narr:
+                    raise IndexError
+                written.add(op[1])
         except (IndexError, TypeError):
             wv = 'bad'
         want.append(wv)
@@ -522,6 +528,9 @@ def run_history(case):
             elif o == 'rand':
                 np.random.rand(op[1])
                 np.random.randint(0, 10, size=op[1])
+                out.append('ok')
+            elif o == 'wwrite':
+                w.arrays[op[1]][...] = POISON
                 out.append('ok')
             elif o == 'new':
                 objs.append(build(case['specs'][op[1]], w))
@@ -928,6 +937,9 @@ def gen_queue_case(rng):
     c = b.case
     c['arrays'] = random_arrays(rng, rng.choice([1, 2]))
     c['specs'] = [random_spec(rng, len(c['arrays']), finite=True) for _ in range(rng.choice([1, 2]))]
+    # one more array that no factory spec refers to: appended to queues only, later overwritten by the caller
+    c['arrays'] += random_arrays(rng, 1)
+    qonly = len(c['arrays']) - 1
     kind = rng.choice(QUEUE_KINDS)
     q = b.qnew(kind, rng.choice([0, 1, 5]))
     for _ in range(rng.randint(4, 12)):
@@ -938,7 +950,10 @@ def gen_queue_case(rng):
         elif r < 0.35:
             b.op('append', rng.choice(qs), rng.choice(g), rng.choice([1, 2, 3]), rng.choice([0, 0, 3]))
         elif r < 0.45:
-            b.op('appendw', rng.choice(qs), rng.randrange(len(c['arrays'])), rng.choice([1, 2]), rng.choice([0, 2]))
+            b.op('appendw', rng.choice(qs), rng.choice([qonly, rng.randrange(len(c['arrays']))]), rng.choice([1, 2]),
+                 rng.choice([0, 2]))
+            if rng.random() < 0.4:
+                b.op('wwrite', qonly)
         elif r < 0.65:
             b.op('pop', rng.choice(qs), rng.choice([3, 9, 17, 30, 45]))
         elif r < 0.75:
@@ -993,7 +1008,7 @@ def malformed_cases():
                 [['call', 2], ['mutate', 0, 0, 99]], [['call', 2], ['mutate', 0, 4, 0]],
                 [['next', 0, 3]], [['new', 0], ['pop', 0, 3]], [['new', 5]], [['qnew', 'fifo', 0], ['next', 0, 3]],
                 [['qnew', 'fifo', 0], ['append', 0, 0, 1, 0]], [['new', 0], ['clone', 0]], [['copy', 2]],
-                [['qnew', 'fifo', 0], ['appendw', 0, 7, 1, 0]], [['qnew', 'lifo', 0]], [['reset', 0]],
+                [['qnew', 'fifo', 0], ['appendw', 0, 7, 1, 0]], [['qnew', 'lifo', 0]], [['reset', 0]], [['wwrite', 4]],
                 [['new', 0], ['qnew', 'brand', 1], ['appendw', 1, 0, 2, 0], ['reset', 1], ['pop', 1, 5]]):
         yield dict(base, ops=ops)
 
